@@ -10,6 +10,16 @@
 //	 => srv m=GET p=/r0/a?x=1 h=… b=<len>:<fnv64> t=… | cli st=200 i=103 h=… b=<len>:<fnv64> t=… err=- || …
 //
 // loss=m drops every m-th datagram of each direction (0 = none), reord=k delays every k-th by 3 RTT.
+//
+// Round 4: win=<n> gives both endpoints stream receive windows of n bytes (0 = default), so that a
+// HEADERS frame larger than n is still being written when the next exchange of the connection is
+// encoded; a field value `*<len>.<seed>` stands for a generated string of that length (observed as
+// `#<len>.<fnv64>`); ta=0|1|2: request trailers announced in the Trailer field not at all / all /
+// only the first name; ov=<len>:<seed> sj=<0|1>: the handler declares Content-Length = the bytes of
+// the regular payload, takes over the stream and sends <len> further bytes (a second gzip member when
+// gz=1) in the same or a separate DATA frame; ae=1: the client asks for gzip itself (no transparent
+// decompression). The client additionally reports res.ContentLength, res.Uncompressed and the
+// Content-Encoding header.
 package h3e
 
 import (
@@ -86,11 +96,43 @@ type exch struct {
 	cl           bool // the client declares the request Content-Length
 	bf           int  // >= 0: the request body's Read fails after this many bytes
 	tw           int  // >= 0: this exchange is the HEAD twin of exchange tw (same handler script)
+	ta           int  // request trailers announced: 0 none, 1 all, 2 only the first name
+	ovLen        int  // >= 0: over-length response, that many bytes beyond the declared Content-Length
+	ovSeed       int
+	sj           bool // the extra bytes share a DATA frame with the end of the declared payload
+	ae           bool // the client sets Accept-Encoding: gzip itself
 }
 
 type scenario struct {
 	loss, reord, lat int
+	win              int
 	ex               []exch
+}
+
+const padAlphabet = "abcdefghijklmnopqrstuvwxyz0123456789"
+
+// expandVal turns `*<len>.<seed>` into the generated string it stands for
+func expandVal(v string) string {
+	if !strings.HasPrefix(v, "*") {
+		return v
+	}
+	var n, seed int
+	if _, err := fmt.Sscanf(v, "*%d.%d", &n, &seed); err != nil || n < 0 || n > 1<<16 {
+		return v
+	}
+	b := make([]byte, n)
+	for i := range b {
+		b[i] = padAlphabet[(seed+i*7+i/13)%36]
+	}
+	return string(b)
+}
+
+// abbrevVal is how a long field value is reported
+func abbrevVal(v string) string {
+	if len(v) <= 40 {
+		return v
+	}
+	return fmt.Sprintf("#%d.%016x", len(v), fnv64([]byte(v)))
 }
 
 func parseKVs(s string) []kv {
@@ -140,6 +182,10 @@ func parseScenario(op string) (scenario, bool) {
 	if sc.lat <= 0 {
 		sc.lat = 5
 	}
+	sc.win, _ = strconv.Atoi(get(f, "win"))
+	if sc.win < 0 || (sc.win > 0 && sc.win < 200) {
+		return sc, false
+	}
 	for _, p := range parts[1:] {
 		fs := strings.Fields(p)
 		var e exch
@@ -156,13 +202,21 @@ func parseScenario(op string) (scenario, bool) {
 		}
 		e.flush, e.gz, e.cl = get(fs, "fl") == "1", get(fs, "gz") == "1", get(fs, "cl") == "1"
 		e.bf, e.tw = -1, -1
+		e.ta, e.ovLen = 1, -1
+		if v := get(fs, "ta"); v != "" {
+			e.ta, _ = strconv.Atoi(v)
+		}
+		if v := get(fs, "ov"); v != "" && v != "-" {
+			fmt.Sscanf(v, "%d:%d", &e.ovLen, &e.ovSeed)
+		}
+		e.sj, e.ae = get(fs, "sj") == "1", get(fs, "ae") == "1"
 		if v := get(fs, "bf"); v != "" && v != "-" {
 			e.bf, _ = strconv.Atoi(v)
 		}
 		if v := get(fs, "tw"); v != "" && v != "-" {
 			e.tw, _ = strconv.Atoi(v)
 		}
-		if e.method == "" || !strings.HasPrefix(e.path, "/r") || e.status < 200 || e.status > 999 || e.bLen > 1<<20 || e.rbLen > 1<<20 {
+		if e.method == "" || !strings.HasPrefix(e.path, "/r") || e.status < 200 || e.status > 999 || e.bLen > 1<<20 || e.rbLen > 1<<20 || e.ovLen > 1<<20 {
 			return sc, false
 		}
 		sc.ex = append(sc.ex, e)
@@ -201,7 +255,7 @@ func obsHeader(h http.Header) string {
 			continue
 		}
 		for _, v := range vs {
-			l = append(l, kv{lk, strings.ReplaceAll(v, " ", "~")})
+			l = append(l, kv{lk, abbrevVal(strings.ReplaceAll(v, " ", "~"))})
 		}
 	}
 	sort.SliceStable(l, func(i, j int) bool { return l[i].k < l[j].k })
@@ -271,7 +325,18 @@ func errStr(err error) string {
 	if err == nil {
 		return "-"
 	}
+	if strings.Contains(err.Error(), "peer sent too much data") {
+		return "E:toomuch"
+	}
 	return strings.ReplaceAll(strings.ReplaceAll(err.Error(), " ", "_"), "|", "/")
+}
+
+func gz(b []byte) []byte {
+	var zb bytes.Buffer
+	zw := gzip.NewWriter(&zb)
+	zw.Write(b)
+	zw.Close()
+	return zb.Bytes()
 }
 
 type faultRouter struct {
@@ -332,7 +397,7 @@ func runScenario(sc scenario) string {
 		mu.Unlock()
 
 		for _, x := range e.rh {
-			w.Header().Add(x.k, strings.ReplaceAll(x.v, "~", " "))
+			w.Header().Add(x.k, strings.ReplaceAll(expandVal(x.v), "~", " "))
 		}
 		if len(e.rt) > 0 {
 			seen := map[string]bool{}
@@ -347,13 +412,36 @@ func runScenario(sc scenario) string {
 			w.WriteHeader(c)
 		}
 		payload := pattern(e.rbLen, e.rbSeed)
-		if e.gz && strings.Contains(req.Header.Get("Accept-Encoding"), "gzip") {
-			var zb bytes.Buffer
-			zw := gzip.NewWriter(&zb)
-			zw.Write(payload)
-			zw.Close()
-			payload = zb.Bytes()
+		zipped := e.gz && strings.Contains(req.Header.Get("Accept-Encoding"), "gzip")
+		if zipped {
+			payload = gz(payload)
 			w.Header().Set("Content-Encoding", "gzip")
+		}
+		if e.ovLen >= 0 {
+			// over-length response: declare the regular payload, take over the stream, send more
+			extra := pattern(e.ovLen, e.ovSeed)
+			if zipped {
+				extra = gz(extra)
+			}
+			w.Header().Set("Content-Length", strconv.Itoa(len(payload)))
+			w.WriteHeader(e.status)
+			hs := w.(http3.HTTPStreamer).HTTPStream()
+			defer hs.Close()
+			for len(payload) > 0 {
+				n := 1 + r.Intn(6000)
+				if n >= len(payload) {
+					n = len(payload)
+					if e.sj {
+						break
+					}
+				}
+				if _, err := hs.Write(payload[:n]); err != nil {
+					return
+				}
+				payload = payload[n:]
+			}
+			hs.Write(append(append([]byte{}, payload...), extra...))
+			return
 		}
 		w.WriteHeader(e.status)
 		for len(payload) > 0 {
@@ -395,6 +483,9 @@ func runScenario(sc scenario) string {
 			panic(err)
 		}
 		qconf := &quic.Config{MaxIdleTimeout: 120 * time.Second, HandshakeIdleTimeout: 60 * time.Second}
+		if sc.win > 0 {
+			qconf.InitialStreamReceiveWindow, qconf.MaxStreamReceiveWindow = uint64(sc.win), uint64(sc.win)
+		}
 		server := &http3.Server{TLSConfig: srvTLS.Clone(), QUICConfig: qconf.Clone(), Handler: handler} // Logger left unset on purpose
 		sdone := make(chan struct{})
 		go func() { defer close(sdone); server.Serve(sconn) }()
@@ -434,8 +525,10 @@ func runScenario(sc scenario) string {
 					cr := &chunkReader{data: pattern(e.bLen, e.bSeed), r: r, fail: e.bf, delay: time.Duration(r.Intn(2)*(40+r.Intn(200))) * time.Millisecond}
 					if len(e.t) > 0 {
 						req.Trailer = http.Header{}
-						for _, x := range e.t {
-							req.Trailer[textproto.CanonicalMIMEHeaderKey(x.k)] = nil
+						for j, x := range e.t {
+							if e.ta == 1 || (e.ta == 2 && j == 0) {
+								req.Trailer[textproto.CanonicalMIMEHeaderKey(x.k)] = nil
+							}
 						}
 						cr.eof = func() {
 							for _, x := range e.t {
@@ -452,7 +545,10 @@ func runScenario(sc scenario) string {
 					}
 				}
 				for _, x := range e.h {
-					req.Header.Add(x.k, strings.ReplaceAll(x.v, "~", " "))
+					req.Header.Add(x.k, strings.ReplaceAll(expandVal(x.v), "~", " "))
+				}
+				if e.ae {
+					req.Header.Set("Accept-Encoding", "gzip")
 				}
 				res, err := tr.RoundTrip(req)
 				if err != nil {
@@ -461,6 +557,26 @@ func runScenario(sc scenario) string {
 				}
 				rb, rerr := readChunked(res.Body, r)
 				res.Body.Close()
+				ce := "-"
+				if v := res.Header.Get("Content-Encoding"); v != "" {
+					ce = v
+					if v == "gzip" && !res.Uncompressed && len(rb) > 0 {
+						// not decompressed by the transport: report the decompressed bytes
+						if zr, err := gzip.NewReader(bytes.NewReader(rb)); err == nil {
+							if pb, err := io.ReadAll(zr); err == nil {
+								rb = pb
+							} else {
+								ce = "gzip-bad"
+							}
+						} else {
+							ce = "gzip-bad"
+						}
+					}
+				}
+				unc := 0
+				if res.Uncompressed {
+					unc = 1
+				}
 				is := "-"
 				if len(info) > 0 {
 					is = strings.Join(info, ",")
@@ -469,7 +585,7 @@ func runScenario(sc scenario) string {
 				if v, ok := res.Header["Content-Length"]; ok && len(v) > 0 {
 					clh = v[0]
 				}
-				cliObs[i] = fmt.Sprintf("cli st=%d i=%s h=%s b=%s t=%s err=%s cl=%s", res.StatusCode, is, obsHeader(res.Header), bodySig(rb), obsHeader(res.Trailer), errStr(rerr), clh)
+				cliObs[i] = fmt.Sprintf("cli st=%d i=%s h=%s b=%s t=%s err=%s cl=%s rcl=%d unc=%d ce=%s", res.StatusCode, is, obsHeader(res.Header), bodySig(rb), obsHeader(res.Trailer), errStr(rerr), clh, res.ContentLength, unc, ce)
 			}(i)
 		}
 		wg.Wait()
@@ -533,9 +649,17 @@ func (rn *runner) GenOp(r *vh.Rand, i int) string {
 	if r.Chance(35) {
 		reord = 3 + r.Intn(8)
 	}
-	var sb strings.Builder
-	fmt.Fprintf(&sb, "conn loss=%d reord=%d lat=%d", loss, reord, 1+r.Intn(20))
 	n := 1 + r.Intn(4)
+	// big-header mode: 2..4 concurrent exchanges whose HEADERS frames exceed the peer's stream window
+	big, win, padLen := false, 0, 0
+	if r.Chance(22) {
+		big = true
+		n = 2 + r.Intn(3)
+		win = []int{600, 1000, 2000}[r.Intn(3)]
+		padLen = 2500 + r.Intn(11000)
+	}
+	var sb strings.Builder
+	fmt.Fprintf(&sb, "conn loss=%d reord=%d lat=%d win=%d", loss, reord, 1+r.Intn(20), win)
 	for k := 0; k < n; k++ {
 		var e exch
 		e.method = methods[r.Pick(35, 35, 12, 18)]
@@ -544,12 +668,25 @@ func (rn *runner) GenOp(r *vh.Rand, i int) string {
 			e.path += "?" + []string{"q=1", "a=b&c=d", "x=%20y"}[r.Intn(3)]
 		}
 		e.h = genKVs(r, []string{"x-a", "x-b", "cookie", "x-long-header-name"}, 5)
+		pickB := pickBody
+		if big {
+			pickB = func(r *vh.Rand) int { return r.Intn(3000) }
+			l := padLen
+			if r.Chance(50) {
+				l = 2500 + r.Intn(11000)
+			}
+			pad := kv{"x-pad", fmt.Sprintf("*%d.%d", l, r.Intn(36))}
+			at := r.Intn(len(e.h) + 1)
+			e.h = append(e.h[:at:at], append([]kv{pad}, e.h[at:]...)...)
+		}
 		hasBody := e.method == "POST" || e.method == "PUT"
+		e.ta = 1
 		if hasBody {
-			e.bLen, e.bSeed = pickBody(r), r.Intn(128)
+			e.bLen, e.bSeed = pickB(r), r.Intn(128)
 			e.cl = r.Chance(60)
 			if r.Chance(35) {
 				e.t = genKVs(r, []string{"x-rt1", "x-rt2"}, 3)
+				e.ta = r.Pick(25, 50, 25)
 			}
 		}
 		e.status = []int{200, 200, 200, 201, 404, 204, 304, 500}[r.Intn(8)]
@@ -560,8 +697,11 @@ func (rn *runner) GenOp(r *vh.Rand, i int) string {
 			}
 		}
 		e.rh = genKVs(r, []string{"x-c", "x-d", "set-cookie"}, 5)
+		if big && r.Chance(50) {
+			e.rh = append(e.rh, kv{"x-rpad", fmt.Sprintf("*%d.%d", 2500+r.Intn(11000), r.Intn(36))})
+		}
 		noBody := e.method == "HEAD" || e.status == 204 || e.status == 304
-		e.rbLen, e.rbSeed = pickBody(r), r.Intn(128)
+		e.rbLen, e.rbSeed = pickB(r), r.Intn(128)
 		if noBody && r.Chance(50) {
 			e.rbLen = 0
 		}
@@ -570,6 +710,17 @@ func (rn *runner) GenOp(r *vh.Rand, i int) string {
 		}
 		e.flush = r.Chance(40)
 		e.gz = !noBody && e.rbLen > 0 && r.Chance(25)
+		e.ae = !noBody && r.Chance(12)
+		// over-length response (declared Content-Length < DATA bytes sent), with and without gzip
+		ov, sj := "-", 0
+		if !noBody && r.Chance(18) {
+			e.rt = nil
+			if r.Chance(50) {
+				e.gz = true
+			}
+			ov = fmt.Sprintf("%d:%d", 1+r.Intn(3000), r.Intn(128))
+			sj = r.Intn(2)
+		}
 		is := "-"
 		if len(e.info) > 0 {
 			var ps []string
@@ -589,18 +740,19 @@ func (rn *runner) GenOp(r *vh.Rand, i int) string {
 			bf = strconv.Itoa(r.Intn(e.bLen))
 			e.t = nil
 		}
-		emit := func(e exch, bf, tw string) {
-			fmt.Fprintf(&sb, " | m=%s p=%s h=%s b=%d:%d t=%s st=%d i=%s rh=%s rb=%d:%d rt=%s fl=%d gz=%d cl=%d bf=%s tw=%s",
-				e.method, e.path, fmtKVs(e.h), e.bLen, e.bSeed, fmtKVs(e.t), e.status, is, fmtKVs(e.rh), e.rbLen, e.rbSeed, fmtKVs(e.rt), b2i(e.flush), b2i(e.gz), b2i(e.cl), bf, tw)
+		emit := func(e exch, bf, tw, ov string) {
+			fmt.Fprintf(&sb, " | m=%s p=%s h=%s b=%d:%d t=%s st=%d i=%s rh=%s rb=%d:%d rt=%s fl=%d gz=%d cl=%d bf=%s tw=%s ta=%d ov=%s sj=%d ae=%d",
+				e.method, e.path, fmtKVs(e.h), e.bLen, e.bSeed, fmtKVs(e.t), e.status, is, fmtKVs(e.rh), e.rbLen, e.rbSeed, fmtKVs(e.rt), b2i(e.flush), b2i(e.gz), b2i(e.cl), bf, tw,
+				e.ta, ov, sj, b2i(e.ae))
 		}
-		emit(e, bf, tw)
+		emit(e, bf, tw, ov)
 		// HEAD twin of a GET: the same handler script, asked for with HEAD
-		if e.method == "GET" && !noBody && k+1 < n && r.Chance(45) {
+		if e.method == "GET" && !noBody && ov == "-" && !e.ae && k+1 < n && r.Chance(45) {
 			h := e
 			h.method = "HEAD"
 			h.path = fmt.Sprintf("/r%d/%s", k+1, strings.SplitN(e.path, "/", 3)[2])
 			h.rt = nil
-			emit(h, "-", strconv.Itoa(k))
+			emit(h, "-", strconv.Itoa(k), "-")
 			k++
 		}
 	}
